@@ -209,6 +209,18 @@ func (h *verifHistory) node(tb testing.TB) *Node {
 	return node
 }
 
+// nodeOwned is node with a verification cache the caller closes (for short-lived nodes: caches registered with
+// tb.Cleanup stay allocated until the test ends).
+func (h *verifHistory) nodeOwned() (*Node, func()) {
+	node := h.nodeNoCache()
+	cache, err := ristretto.NewCache(&ristretto.Config[[]byte, any]{NumCounters: 1e4, MaxCost: 1 << 22, BufferItems: 64})
+	if err != nil {
+		panic(err)
+	}
+	node.cacheStore = cache
+	return node, cache.Close
+}
+
 // nodeNoCache is node without the verification cache (enough for the views).
 func (h *verifHistory) nodeNoCache() *Node {
 	cnodes := make([]*CNode, len(h.Records))
@@ -443,7 +455,6 @@ func vC09StdVerify(keys []crypto.Key, msg crypto.Hash, sig crypto.Signature) boo
 	return ed25519.Verify(ed25519.PublicKey(sum.Bytes()), msg[:], sig[:])
 }
 
-
 // vC09LegacyTimes: instants after a removal inside its operation window while the legacy rule applies (the
 // certificate may then come from the membership before the window).
 func vC09LegacyTimes(h *verifHistory, rng *rand.Rand) []uint64 {
@@ -463,4 +474,3 @@ func vC09LegacyTimes(h *verifHistory, rng *rand.Rand) []uint64 {
 	}
 	return out
 }
-
